@@ -1,0 +1,18 @@
+//go:build !verif
+
+package interp
+
+func verifPoint(*lexer, int) {}
+
+const (
+	EvStart = iota
+	EvExit
+	EvRecvBefore
+	EvRecvAfter
+	EvSendBefore
+	EvSendAfter
+	EvBail
+	EvErrWrite
+	EvRead
+	EvParseExit
+)
